@@ -37,7 +37,7 @@ Tick == /\ Alive
         /\ hist' = Append(hist, <<"t">>)
 Next == (\E c \in EnvKeys : Press(c) \/ Release(c)) \/ Tick %(extra_next)s
 
-View == <<K, phys, mon>>
+View == %(view)s
 LastIsTick == hist' # <<>> /\ hist'[Len(hist')][1] = "t"
 Expect == IF LastIsTick
           THEN [out |-> K'.out, idle |-> IsIdle(K'), cb |-> CanBlockUpdate(K').cb, proj |-> Proj(K')]
@@ -95,7 +95,8 @@ def gen_instance(inst, wd):
         qmax=inst.get("qmax", 3), monparams=monparams, moninit=moninit, moninput_d=moninput_d,
         moninput_u=moninput_u, montick=montick, monok=monok,
         extra_guard=inst.get("extra_guard", ""), extra_actions=inst.get("extra_actions", ""),
-        extra_next=inst.get("extra_next", ""), extra_defs=inst.get("extra_defs", ""))
+        extra_next=inst.get("extra_next", ""), extra_defs=inst.get("extra_defs", ""),
+        view=inst.get("view", "<<K, phys, mon>>"))
     with open(os.path.join(wd, mod + ".tla"), "w") as f:
         f.write(text)
     cfg = CFG_TEMPLATE % dict(
@@ -106,6 +107,23 @@ def gen_instance(inst, wd):
     with open(os.path.join(wd, mod + ".cfg"), "w") as f:
         f.write(cfg)
     return mod, kbd, caps, dump
+
+
+def drift_histories(path, limit, seed_text=""):
+    """All drifting edge histories (as [{"h": [...]}]), shortest first up to `limit`, plus a random sample of the rest."""
+    import random
+    hs = []
+    if os.path.exists(path):
+        for line in open(path):
+            line = line.strip()
+            if line:
+                hs.append(json.loads(line))
+    hs.sort(key=lambda d: len(d["h"]))
+    if len(hs) <= limit:
+        return hs
+    head, rest = hs[:limit], hs[limit:]
+    rng = random.Random(os.environ.get("VERIF_SEED", "1") + seed_text)
+    return head + rng.sample(rest, min(len(rest), limit // 2))
 
 
 def check_instance(inst, wd, workers=8, timeout=900, replay=True):
@@ -134,7 +152,15 @@ def check_instance(inst, wd, workers=8, timeout=900, replay=True):
             rr = replay_edges(kbd, edges, caps["age"])
             res["replayed"] = rr["edges"]
             res["drift"] = rr["mismatches"]
-            res["drift_samples"] = rr["samples"][:5]
+            res["drift_detail"] = rr["samples"][:5]
+            res["drift_file"] = rr["drift_file"]
+            # every drifting history is handed to the caller to be recorded on the code and judged by the L2
+            # monitor (DESIGN 3.3): shortest first, capped; beyond the cap a seeded random sample
+            det = rr["samples"][:5]     # with expected / observed (debugging a model drift)
+            seen_h = {json.dumps(d["h"]) for d in det}
+            res["drift_samples"] = det + [d for d in drift_histories(rr["drift_file"], inst.get("drift_limit", 1500), inst["name"])
+                                          if json.dumps(d["h"]) not in seen_h]
+            res["drift_judged"] = len(res["drift_samples"])
             res["impl_panics"] = rr["panics"]
     res["wall_s"] = round(time.time() - t0, 1)
     return res
